@@ -2,7 +2,7 @@
 that satisfy the spec's constraints (judged by RefConstraint)."""
 from __future__ import annotations
 
-from mc.common import pmap
+from mc.common import pmap, pmap_tagged
 from mc.fd import build, snap
 from mc.refconstraint import And, Atom, Child, Desc, Idx, Or, Quant, Slc, Sym, holds, merge_whole, text
 from mc.refconstraint import readings as all_readings
@@ -101,7 +101,7 @@ def work(idxs):
 def run_api(ctx):
     js = jobs()
     n = len(js)
-    results = pmap(work, js, chunk=1)
+    results = pmap_tagged(work, js, chunk=1)
     words_n = trees = yielded = 0
     for r in results:
         words_n += r["words"]
